@@ -4,4 +4,6 @@ set -e
 cd "$(dirname "$0")/engine"
 export PATH=/opt/veriftools/go1.26.8/bin:$PATH GOPROXY=off GOSUMDB=off GOTOOLCHAIN=local GOFLAGS=-mod=mod
 mkdir -p ../bin ../evidence ../out
-go build -o ../bin/bngsym.new . && mv ../bin/bngsym.new ../bin/bngsym
+TAGS=""
+if ls llir_*.go >/dev/null 2>&1 && [ -f .llir_ready ]; then TAGS="-tags llir"; fi
+go build $TAGS -o ../bin/bngsym.new . && mv ../bin/bngsym.new ../bin/bngsym
